@@ -33,7 +33,11 @@ RULE = ("periodic structures with 1-3 planted rigid copies (per-atom perturbatio
         "it), 35 % of the random and 25 % of the grid cases searched WITH a valid explicit hint triple (partial hints, all "
         "three, index 0 in every position; copies then perturbed by atol/40), 20 % also called with "
         "return_positions_and_quats=False; sequences in one process (orthorhombic cell -> triclinic cell with the same "
-        "diagonal -> the first again on the same objects; structure -> its supercell -> structure). Separate small stream for the KNOWN FINDING: diagonal cells with one or two "
+        "diagonal -> the first again on the same objects; structure -> its supercell -> structure; ONE Atoms object "
+        "searched with a short pattern / small atol and a long pattern / large atol in both orders). Cells also with tilt "
+        "entries only above the diagonal or in a sparse subset of the off-diagonal entries. Stream of systematically "
+        "distorted copies: atol 0.3-0.5 A, one pair of atoms (the search axis, automatic or hinted; bonds 1.1-1.5 A) moved "
+        "apart/together by 0.40-0.46 atol each, validated with inside=0.5. Separate small stream for the KNOWN FINDING: diagonal cells with one or two "
         "negative entries (3 quick / 20 thorough). Non-trivial = a planted copy straddles at least one cell face or the "
         "structure contains a decoy.")
 
@@ -182,7 +186,12 @@ def sequences(ctx, rng, n):
         if first is None:
             continue
         steps = [("first", first)]
-        if rng.random() < 0.5:
+        r3 = rng.random()
+        if r3 < 0.4:
+            if same_object_two_searches(ctx, rng):
+                done += 1
+            continue
+        if r3 < 0.7:
             pname = first["info"]["pattern"]
             cf = g.tilted_twin(rng, first["cell"])
             d = fl.diam(fl.pattern_json(pname)["pos"])
@@ -225,6 +234,76 @@ def sequences(ctx, rng, n):
             if bad:
                 ctx.fail("in the sequence %s, step %s: %s" % (kind, name, bad), inp, observed=res.get("ok", res.get("err")),
                          required="every search of the sequence reports exactly the planted groups", tags=["sequence", kind])
+
+
+SHORT = ["single", "pair", "pair_same", "pair@y", "bent"]
+LONG = ["asym5", "chiral", "asym4", "planar4", "ch3", "collinear_asym"]
+
+
+def same_object_two_searches(ctx, rng):
+    """ONE Atoms object searched twice with different arguments: a short pattern / small atol and a long pattern /
+    large atol, in both orders (thin search shell first, thick second — and the reverse), then the first search again.
+    The structure holds boundary-straddling copies of the LONG pattern; what each search must report is the planted
+    set (long pattern) resp. the independent enumeration (short pattern, other tolerance)."""
+    long_p = rng.choice(LONG)
+    atol_long = rng.choice([0.05, 0.05, 0.2])
+    case = g.random_case(rng, atol=atol_long, pname=long_p, boundary=True, tight=False)
+    if case is None:
+        return False
+    searches = [("long-pattern", case["pattern"], atol_long, [tuple(k) for k in case["planted"]])]
+    # second argument set: a short pattern (whatever it matches in this structure) or the same pattern, tiny atol
+    if rng.random() < 0.7:
+        sp = fl.pattern_json(rng.choice(SHORT))
+        spat = {"elems": sp["elems"], "pos": [[float(x) for x in p] for p in sp["pos"]], "name": sp["name"]}
+        atol_s = rng.choice([0.001, 0.01, 0.05])
+    else:
+        spat, atol_s = case["pattern"], 0.001
+    ins, amb = g.brute_occurrences(case["elems"], case["pos"], case["cell"], spat["elems"], spat["pos"], atol_s)
+    if amb:
+        return False
+    searches.append(("short-pattern", spat, atol_s, sorted(ins)))
+    order = [1, 0, 1] if rng.random() < 0.6 else [0, 1, 0]
+    s_ = fl.mk_structure(case["elems"], case["pos"], case["cell"])           # the SAME object for all three searches
+    kind = "same-object:" + "->".join(searches[k][0] for k in order)
+    ctx.count("sequence:" + kind)
+    for step, k in enumerate(order):
+        name, pat, atol, want = searches[k]
+        sd = rng.randrange(1 << 30)
+        p_ = g.mk_pattern({"pattern": pat})
+        res = fl.run_find(s_, p_, atol, seed=sd) if rng.random() < 0.7 else run_plain(s_, p_, atol, seed=sd)
+        inp = {"op": "find-complete", "elems": case["elems"], "pos": case["pos"], "cell": case["cell"], "pattern": pat,
+               "atol": atol, "hints": [None, None, None], "seed": sd, "planted": [list(x) for x in want],
+               "info": case["info"], "sequence": {"kind": kind, "step": step,
+                                                  "before": [{"pattern": searches[j][1], "atol": searches[j][2]} for j in order[:step]]}}
+        ctx.case(inp, nontrivial=True)
+        bad = oracle_complete(want, res)
+        if bad:
+            ctx.fail("same Atoms object, search %d of %s: %s" % (step + 1, kind, bad), inp,
+                     observed=res.get("ok", res.get("err")),
+                     required="every search reports exactly the occurrences of ITS pattern and tolerance", tags=["sequence", kind])
+    return True
+
+
+def distorted(ctx, rng, n, pairs, n_tie):
+    """large tolerances relative to short bonds, copies distorted systematically (gen_find_c02.distorted_case)"""
+    made = 0
+    while made < n:
+        r = g.distorted_case(rng)
+        if r is None:
+            ctx.count("generator:rejected")
+            continue
+        made += 1
+        case, hints, atol = r
+        inp = inp_of(case, atol=atol, hints=hints, seed=rng.randrange(1 << 30))
+        res, bad = one(inp)
+        ctx.case(inp, nontrivial=True)
+        ctx.count("stream:distorted-copy-large-atol")
+        ctx.count("atol:%g" % atol)
+        if bad:
+            ctx.fail(bad, inp, observed=res.get("ok", res.get("err")), required="reported key set == planted key set, each once",
+                     tags=["distorted-copy", "pattern:" + case["info"]["pattern"]] + case["info"]["kinds"])
+        elif len(pairs) < n_tie + 25 and "ok" in res and rng.random() < 0.3:
+            pairs.append((inp, case, res))
 
 
 # ------------------------------------------------------------------ the check
@@ -284,7 +363,8 @@ def run(ctx, oracle_only=False, scale=1):
             if pbad:
                 ctx.fail(pbad, pin, observed=pres.get("ok", pres.get("err")),
                          required="reported key set == planted key set, each once", tags=tags_of(case) + ["plain-call"])
-    sequences(ctx, rng, ctx.n(12, 120) * scale)
+    sequences(ctx, rng, ctx.n(24, 200) * scale)
+    distorted(ctx, rng, ctx.n(60, 600) * scale, pairs, n_tie)
     # boundary grid: complete in the thorough tier, a random sample in the quick tier
     tasks = grid_tasks()
     if ctx.tier == "quick" and scale == 1:
@@ -295,7 +375,8 @@ def run(ctx, oracle_only=False, scale=1):
         ctx.exhaustive = False   # the grid is enumerated completely, the space of structures is not finite
     procs = 1 if len(tasks) <= 2000 else max(1, min(8, (os.cpu_count() or 2) // 2))
     run_grid(ctx, tasks, procs)
-    # known finding C02-negative-diagonal-orthorhombic-cell: diagonal cells with one or two NEGATIVE entries.
+    # former finding C02-negative-diagonal-orthorhombic-cell (fixed in /repo by 6179f2d; the stream stays as a regression
+    # check, a recurrence would again carry the finding's tag): diagonal cells with one or two NEGATIVE entries.
     # Only "planted occurrence not reported" is attributed to the finding (exactly its tag); anything else that goes
     # wrong in this stream (a group twice, a group that is no occurrence, an exception) stays an untagged failure.
     # The model follows the code's box test literally (it also selects nothing), so these cases go through the tie.
